@@ -27,11 +27,21 @@ impl ChildOut {
 
 /// Runs `exe child <name> args…` with exactly the given environment (plus PATH), waits with a timeout.
 pub fn run_child(exe: &Path, name: &str, args: &[String], env: &[(String, String)], timeout: Duration) -> ChildOut {
+    run_child_guarded(exe, name, args, env, timeout, &|| false)
+}
+
+static CHILD_SEQ: std::sync::atomic::AtomicUsize = std::sync::atomic::AtomicUsize::new(0);
+
+/// like `run_child`; the worker is also killed (and reported as timed out) as soon as `abort()` says so
+pub fn run_child_guarded(exe: &Path, name: &str, args: &[String], env: &[(String, String)], timeout: Duration, abort: &dyn Fn() -> bool) -> ChildOut {
     let mut cmd = Command::new(exe);
     cmd.arg("child").arg(name).args(args);
     cmd.env_clear();
     cmd.env("PATH", std::env::var("PATH").unwrap_or_default());
     cmd.env("RUST_BACKTRACE", "0");
+    // the worker's scratch lives below this process's root: one clean-up covers both
+    let sub = super::sandbox::scratch_root().join(format!("w{}", CHILD_SEQ.fetch_add(1, std::sync::atomic::Ordering::Relaxed)));
+    cmd.env("VERIF_SCRATCH_ROOT", &sub);
     for (k, v) in env {
         cmd.env(k, v);
     }
@@ -60,7 +70,7 @@ pub fn run_child(exe: &Path, name: &str, args: &[String], env: &[(String, String
         match child.try_wait() {
             Ok(Some(s)) => break s.code(),
             Ok(None) => {
-                if start.elapsed() > timeout {
+                if start.elapsed() > timeout || abort() {
                     let _ = child.kill();
                     let _ = child.wait();
                     timed_out = true;
